@@ -1,6 +1,7 @@
 package main
 
 import (
+	"fmt"
 	"go/ast"
 	"go/token"
 	"strings"
@@ -77,6 +78,169 @@ func init() {
 			})
 		}
 		g.def("creditUsesFrameHeaderLength", "Bool", boolLean(credit))
+
+		g.def("initialMaxHeaderTableSize", "Nat", func() string {
+			if v, ok := consts["initialMaxHeaderTableSize"]; ok {
+				return v
+			}
+			return "0"
+		}())
+
+		// ---- SETTINGS: which identifiers the relay acts on, and how it reads them -----------------
+		// The function that iterates over a SETTINGS frame (wherever it lives in relay.go). Per peer
+		// update (updateTableSize / updateInitialWindowSize / updateMaxFrameSize):
+		//   1 = called inside the ForeachSetting callback: every value, in the order of the frame
+		//   2 = called after the loop with a variable the callback assigns: once, with the LAST value
+		//   3 = called with the result of SettingsFrame.Value(...): the FIRST value of the identifier
+		//   0 = not called at all
+		modes := map[string]int{"updateTableSize": 0, "updateInitialWindowSize": 0, "updateMaxFrameSize": 0}
+		usesValue, iterates := false, false
+		var settingsFn *ast.FuncDecl
+		for _, d := range relay.Decls {
+			fd, ok := d.(*ast.FuncDecl)
+			if !ok || fd.Body == nil {
+				continue
+			}
+			ast.Inspect(fd, func(x ast.Node) bool {
+				if c, ok := x.(*ast.CallExpr); ok && strings.HasSuffix(src(c.Fun), ".ForeachSetting") {
+					settingsFn = fd
+				}
+				return true
+			})
+		}
+		if settingsFn == nil { // no iteration at all: look where the peer updates are called from
+			settingsFn = funcDecl(relay, "relay", "processFrame")
+		}
+		if settingsFn != nil {
+			var callback *ast.FuncLit
+			ast.Inspect(settingsFn, func(x ast.Node) bool {
+				if c, ok := x.(*ast.CallExpr); ok && strings.HasSuffix(src(c.Fun), ".ForeachSetting") && len(c.Args) == 1 {
+					if fl, ok := c.Args[0].(*ast.FuncLit); ok {
+						callback = fl
+						iterates = true
+					}
+				}
+				return true
+			})
+			assignedInCallback := map[string]bool{}
+			if callback != nil {
+				ast.Inspect(callback, func(x ast.Node) bool {
+					if as, ok := x.(*ast.AssignStmt); ok {
+						for _, l := range as.Lhs {
+							assignedInCallback[strings.TrimPrefix(src(l), "*")] = true
+						}
+					}
+					return true
+				})
+			}
+			ast.Inspect(settingsFn, func(x ast.Node) bool {
+				c, ok := x.(*ast.CallExpr)
+				if !ok {
+					return true
+				}
+				if strings.HasSuffix(src(c.Fun), ".Value") && len(c.Args) == 1 && strings.Contains(src(c.Args[0]), "Setting") {
+					usesValue = true
+				}
+				for name := range modes {
+					if !strings.HasSuffix(src(c.Fun), "."+name) || len(c.Args) != 1 {
+						continue
+					}
+					arg := strings.TrimPrefix(strings.TrimPrefix(src(c.Args[0]), "*"), "&")
+					switch {
+					case callback != nil && c.Pos() >= callback.Pos() && c.End() <= callback.End():
+						modes[name] = 1
+					case assignedInCallback[arg]:
+						modes[name] = 2
+					default:
+						modes[name] = 3 // a value obtained some other way (SettingsFrame.Value: first occurrence)
+					}
+				}
+				return true
+			})
+		}
+		g.def("settingsIteratedInOrder", "Bool", boolLean(iterates && !usesValue))
+		g.def("tableSizeReadMode", "Nat", fmt.Sprint(modes["updateTableSize"]))
+		g.def("initialWindowReadMode", "Nat", fmt.Sprint(modes["updateInitialWindowSize"]))
+		g.def("maxFrameReadMode", "Nat", fmt.Sprint(modes["updateMaxFrameSize"]))
+
+		// ---- HPACK table sizes --------------------------------------------------------------------
+		// newRelay: the decoder accepts any in-band size update, the encoder may follow any advertised size
+		maxU32 := func(fn string) (in, out bool) {
+			for _, d := range relay.Decls {
+				fd, ok := d.(*ast.FuncDecl)
+				if !ok || fd.Body == nil {
+					continue
+				}
+				ast.Inspect(fd, func(x ast.Node) bool {
+					if c, ok := x.(*ast.CallExpr); ok && strings.HasSuffix(src(c.Fun), "."+fn) && len(c.Args) == 1 {
+						if fd.Name.Name == "newRelay" && src(c.Args[0]) == "math.MaxUint32" {
+							in = true
+						} else {
+							out = true
+						}
+					}
+					return true
+				})
+			}
+			return
+		}
+		decIn, decOut := maxU32("SetAllowedMaxDynamicTableSize")
+		encIn, encOut := maxU32("SetMaxDynamicTableSizeLimit")
+		g.def("decoderAllowsAnySizeUpdate", "Bool", boolLean(decIn && !decOut))
+		g.def("encoderLimitIsMaxUint32", "Bool", boolLean(encIn && !encOut))
+		// updateTableSize: the encoder's table size follows the setting; the decoder is not touched
+		touchesDecoder, setsEncoder := false, false
+		if fd := funcDecl(relay, "relay", "updateTableSize"); fd != nil {
+			ast.Inspect(fd, func(x ast.Node) bool {
+				if c, ok := x.(*ast.CallExpr); ok {
+					f := src(c.Fun)
+					if strings.Contains(f, "decoder.") {
+						touchesDecoder = true
+					}
+					if strings.HasSuffix(f, "encoder.SetMaxDynamicTableSize") {
+						setsEncoder = true
+					}
+				}
+				return true
+			})
+		}
+		g.def("updateTableSizeSetsEncoder", "Bool", boolLean(setsEncoder))
+		g.def("updateTableSizeTouchesDecoder", "Bool", boolLean(touchesDecoder))
+
+		// ---- updateWindow: a WINDOW_UPDATE for a stream without an output buffer creates the buffer
+		// (through the creating accessor relay.outputBuffer), and the connection-level branch falls
+		// through to the same code (it also credits the pseudo-buffer of stream 0)
+		creates, accessorCreates, connReturns := false, false, false
+		if fd := funcDecl(relay, "relay", "outputBuffer"); fd != nil {
+			ast.Inspect(fd, func(x ast.Node) bool {
+				if as, ok := x.(*ast.AssignStmt); ok && len(as.Lhs) == 1 {
+					if ix, ok := as.Lhs[0].(*ast.IndexExpr); ok && strings.HasSuffix(src(ix.X), "outputBuffers") {
+						accessorCreates = true
+					}
+				}
+				return true
+			})
+		}
+		if fd := funcDecl(relay, "relay", "updateWindow"); fd != nil {
+			for _, n := range callNames(fd) {
+				if strings.HasSuffix(n, ".outputBuffer") {
+					creates = true
+				}
+			}
+			ast.Inspect(fd, func(x ast.Node) bool {
+				if is, ok := x.(*ast.IfStmt); ok && strings.Contains(src(is.Cond), "StreamID == 0") {
+					ast.Inspect(is.Body, func(y ast.Node) bool {
+						if _, ok := y.(*ast.ReturnStmt); ok {
+							connReturns = true
+						}
+						return true
+					})
+				}
+				return true
+			})
+		}
+		g.def("windowUpdateCreatesBuffer", "Bool", boolLean(creates && accessorCreates))
+		g.def("connWindowUpdateFallsThrough", "Bool", boolLean(!connReturns))
 
 		// forwardPreface reads the whole preface (io.ReadFull), not whatever one Read returns
 		h2f := parse("h2/h2.go")
